@@ -12,7 +12,7 @@ PY = "/venv/bin/python"
 
 # rows the docs / corpus use with the Python wrapper switched on (list mode)
 PY_ROWS = ["N1", "N2in", "N2out", "N2inout", "B1", "B1out", "B1inout", "S1in", "S1out", "S1c", "S3in", "S3out",
-           "S3inout", "S3val", "N3in", "N3out", "N2ref", "N2refout", "E1"]
+           "S3inout", "S3val", "N3in", "N3out", "N3inout", "N2ref", "N2refout", "E1"]
 PY_RESULTS = ["void", "N", "B", "C", "S1", "S3", "S3ref", "E"]
 # overload sets distinguishable by Python argument types (a Python int is accepted where a double
 # or - as bool is a subclass of int - an int is expected, so those pairs are not used)
